@@ -11,6 +11,8 @@ def run(tier):
         progs += en.curated(names=base if pay == "int" or thorough else base[:3], payload=pay)
     progs += en.curated(names=["deep3", "orthoroot"], payload="over", cxx="clang++", std="c++14", san=True, asserts=True)
     progs += en.curated(names=["deep3"], payload="fat", manual=True)
+    # substitution limit 1: a single approved request fills the per-step history exactly
+    progs += [en.Prog("flat3-lim1", en.st.CURATED["flat3"], sublimit=1, payload="int"), en.Prog("deep3-lim1", en.st.CURATED["deep3"], sublimit=1, payload="over")]
     plan_progs = en.curated(names=["plannest", "planortho"], payload="int") + en.curated(names=["plannest"], payload="over")
     for p in plan_progs:
         p.args = ["--mode", "plans", "--classes", str(en.cls("STATUS", "PLANRESULT")), "--dev", "2", "--batch", "1"]
